@@ -230,12 +230,12 @@ func (w *worker) run(bin string, src string, flags []string) (hx.RunResult, []by
 }
 
 type state struct {
-	cfg   hx.Config
-	meta  *hx.Meta
-	tbl   *Table
-	mu    sync.Mutex
-	runs  int
-	cases int
+	cfg                 hx.Config
+	meta                *hx.Meta
+	tbl                 *Table
+	mu                  sync.Mutex
+	runs                int
+	cases               int
 	sortL, dispL, mintL []string
 }
 
@@ -370,11 +370,11 @@ func (s *state) probe(w *worker, bin string, table []Plugin, c config, name stri
 // ---------- C. the renaming battery ----------
 
 type battery struct {
-	spec    pkgSpec
-	defSrc  string
-	defOut  []byte
-	defCan  *output
-	defOK   bool
+	spec   pkgSpec
+	defSrc string
+	defOut []byte
+	defCan *output
+	defOK  bool
 }
 
 func (s *state) vet(dir string) (bool, string) {
@@ -783,6 +783,32 @@ func Run(cfg hx.Config) (*hx.Meta, error) {
 			if distinct(effective(tbl, c)) {
 				bjobs = append(bjobs, bjob{b, c, p.bin, fmt.Sprintf("permuted-registration-%d/nested", pi)})
 			}
+		}
+	}
+	// adjacent prefixes: plugin p is called under its bare prefix Q, so its first helper is Q_, which is
+	// also the bare helper name of a plugin q whose prefix is Q_ (all of q's calls carry a suffix)
+	recursive := []string{"equal", "compare", "hash", "deepcopy", "gostring", "clone"}
+	for pi, p := range recursive {
+		spec := pkgSpec{variant: pi % len(declVariants)}
+		for _, it := range catalogue {
+			if it.args == "a1, a2" || it.args == "a1" {
+				sfx := "A"
+				if it.plugin == p {
+					sfx = ""
+				}
+				spec.calls = append(spec.calls, call{it, sfx})
+			}
+		}
+		b, ok := s.prepare(workers[0], cfg.Goderive, spec)
+		if !ok {
+			continue
+		}
+		bats = append(bats, b)
+		for qi, q := range recursive {
+			if q == p || (!thorough && (pi+qi)%2 == 0) {
+				continue
+			}
+			bjobs = append(bjobs, bjob{b, config{Global: "derive", Overrides: [][2]string{{p, "zq"}, {q, "zq_"}}}, cfg.Goderive, "adjacent"})
 		}
 	}
 	for wi := 0; wi < W; wi++ {
